@@ -120,9 +120,19 @@ def build_harness(name, sources, whitebox=False, exclude_objs=(), extra=()):
                "-I" + BUILD, "-I" + REPO + "/src/BlocksRuntime"] + srcs + \
               ["-o", out, "-L" + BUILD, "-ldispatch", "-lBlocksRuntime", "-Wl,-rpath," + BUILD, "-lpthread"] + \
               list(extra)
-    r = run(cmd, timeout=600)
-    if r.returncode != 0:
-        return None, "harness build failed: " + r.stderr[-4000:]
+    # several checks share a harness (c01_lanes, c01_lanewords, c05_sync ...): link to a private name and rename atomically, so a
+    # concurrently running check never executes a half-written binary
+    tmp = out + ".%d.tmp" % os.getpid()
+    cmd[cmd.index(out)] = tmp
+    with Lock("harness-" + name):
+        r = run(cmd, timeout=900)
+        if r.returncode != 0:
+            try:
+                os.remove(tmp)
+            except OSError:
+                pass
+            return None, "harness build failed: " + r.stderr[-4000:]
+        os.replace(tmp, out)
     return out, ""
 
 
